@@ -367,6 +367,24 @@ def check(run):
         env = pf.default_env(rng, specs)
         motion_case(run, specs, env, cayley(rng), np.array([0.5, 0.25, -1.0]), "orthogonal+translation", ["overlap(tol_screen=1e-8)", "overlap"])
         motion_case(run, specs, env, sp[(5 * k + 3) % len(sp)], np.zeros(3), "signed-permutation", ["overlap(tol_screen=1e-8)"])
+        # the distance is below 0.9 x the documented cutoff, so nothing may be dropped: in the given frame and in rotated frames (among
+        # them one that puts the separation on a coordinate axis and one that puts it on the body diagonal) screened = unscreened
+        amin = [min(s_.exps) for s_ in specs]
+        cutoff = float(np.sqrt(-(amin[0] + amin[1]) / (amin[0] * amin[1]) * np.log(1e-8)))
+        dist = float(np.linalg.norm(d0))
+        if dist < 0.9 * cutoff:
+            for lab, dvec in (("given frame", np.array(d0)), ("separation along x", np.array([dist, 0.0, 0.0])), ("separation along z", np.array([0.0, 0.0, dist])),
+                              ("separation along the body diagonal", np.array([1.0, -1.0, 1.0]) * dist / np.sqrt(3.0))):
+                sp2 = [specs[0], specs[1].copy(center=[float(a + b) for a, b in zip(c0, dvec)])]
+                b2 = make_basis(sp2)
+                a_s = pf.FUNCS["overlap(tol_screen=1e-8)"][0](b2, env)
+                a_u = pf.FUNCS["overlap"][0](b2, env)
+                run.case(("screen-frame", lab, k) + sig(sp2))
+                if a_s.shape != a_u.shape or np.abs(a_s - a_u).max() > 1e-9:
+                    run.violation(f"screened overlap drops a pair {dist:.3g} bohr apart although the cutoff is {cutoff:.3g} bohr ({lab}): the decision "
+                                  "depends on the orientation of the frame", {"case": "screen-frame", "basis": core.describe_basis(sp2),
+                                                                            "signature": {"kind": "motion-screening"}})
+                    break
         run.count("screened overlap of diffuse shells 5.5 - 8 bohr apart")
     for l in range(5 if quick else 8):
         right_matrix_case(run, rng, l)
@@ -394,6 +412,14 @@ def check(run):
 
 
 def replay(run, rep):
+    if rep.get("case") == "screen-frame":
+        n0_ = len(run.violations)
+        b2 = make_basis(specs_from(rep))
+        a_s = pf.FUNCS["overlap(tol_screen=1e-8)"][0](b2, None)
+        a_u = pf.FUNCS["overlap"][0](b2, None)
+        if a_s.shape != a_u.shape or np.abs(a_s - a_u).max() > 1e-9:
+            run.violation("screened overlap drops a pair that is closer than the documented cutoff", dict(rep))
+        return len(run.violations) == n0_
     n0 = len(run.violations)
     specs = specs_from(rep)
     if rep["case"] == "right-matrix":
